@@ -194,8 +194,10 @@ func Field(tag any, name string, args ...any) {
 	fn := func() { Meta("rpc:tag", fmt.Sprintf("%v", tag)) }
 	if len(args) > 0 {
 		if d, ok := args[len(args)-1].(func()); ok {
-			old := fn
-			fn = func() { d(); old() }
+			if d != nil {
+				old := fn
+				fn = func() { d(); old() }
+			}
 			args = args[:len(args)-1]
 		}
 	}
